@@ -316,6 +316,57 @@ fn check_batch(cases: &[IntCase], rep: &mut Report) {
     }
 }
 
+/// Bounds that arrive through the parameters of a parameterized type: `Pq {INTEGER: lowq, INTEGER: highq} ::= SEQUENCE
+/// { fq1 INTEGER (lowq..highq), fq2 .. DEFAULT highq }` instantiated with (i) two literals, (ii) a literal and a reference to a
+/// module-level value, (iii) a literal and a reference to a module-level value that is spelled like the *first* dummy reference
+/// (X.683 8.3: inside the template the dummy hides that value, in the actual parameter list it does not).
+fn parameterized_bounds(lo: i128, hi: i128, rep: &mut Report) {
+    let src = format!(
+        "Mq1 DEFINITIONS AUTOMATIC TAGS ::= BEGIN\nPq {{INTEGER: lowq, INTEGER: highq}} ::= SEQUENCE {{ fq1 INTEGER (lowq..highq), fq2 INTEGER (lowq..highq) DEFAULT highq }}\nhvq INTEGER ::= {hi}\nlowq INTEGER ::= {hi}\nTq1 ::= Pq {{{lo}, {hi}}}\nTq2 ::= Pq {{{lo}, hvq}}\nTq3 ::= Pq {{{lo}, lowq}}\nEND\n"
+    );
+    let run = comp::rasn1(&src);
+    rep.evaluations += 1;
+    let comp::Outcome::Ok { generated, warnings } = &run.out else {
+        rep.count("parameterized[not Ok]", 1);
+        return;
+    };
+    let Ok(mods) = proj::project(generated) else { return };
+    let m = &mods[0];
+    let case = range_case(Some(lo), Some(hi), false);
+    for (t, how) in [("Tq1", "literal-arguments"), ("Tq2", "value-reference-argument"), ("Tq3", "argument-named-like-an-earlier-dummy")] {
+        if warnings.iter().any(|w| w.contains(t)) {
+            rep.count("parameterized[warned]", 1);
+            continue;
+        }
+        let Some(it) = m.find(t) else { continue };
+        let Kind::Struct { fields, .. } = &it.kind else { continue };
+        for f in fields {
+            let Some(tok) = resolve_int(m, &f.ty, 0) else {
+                rep.count("type_token_unresolved", 1);
+                continue;
+            };
+            rep.count("int_type_tokens_checked", 1);
+            rep.count("int_type_tokens_checked[parameterized]", 1);
+            rep.nontrivial.insert(hash_str(&format!("P{lo},{hi},{t}")));
+            for (k, d) in judge_type(&tok, &case) {
+                rep.violations.push(Violation { sig: format!("c06|{k}|parameterized-instance|{how}"), what: format!("{t}.{} of `Pq {{{lo}, ..}}` (bounds {lo}..{hi} through {how}): {d}", f.name), replay: json!({"asn1": src, "permitted": case.permitted.show()}) });
+            }
+        }
+        // the DEFAULT literal of the instance
+        let mut errs = vec![];
+        let mut nl = 0;
+        if let Some(Kind::Fn { ret, body, .. }) = m.find_fn(&format!("{}_fq2_default", t.to_lowercase())).map(|i| &i.kind) {
+            if let Some(syn::Stmt::Expr(e, None)) = body.stmts.last() {
+                check_lits(m, e, Some(ret.as_str()), &mut errs, &mut nl);
+            }
+        }
+        rep.count("literals_checked", nl);
+        for e in errs {
+            rep.violations.push(Violation { sig: format!("c06|literal-does-not-fit|parameterized-instance|{how}"), what: format!("{t}: {e}"), replay: json!({"asn1": src}) });
+        }
+    }
+}
+
 fn random_case(rng: &mut Rng, pts: &[i128]) -> IntCase {
     let pick_iv = |rng: &mut Rng| -> (Iv, String) {
         let a = *rng.pick(pts) + rng.range(-1, 1) as i128 * (rng.below(3) == 0) as i128;
@@ -360,9 +411,9 @@ fn random_case(rng: &mut Rng, pts: &[i128]) -> IntCase {
 pub fn run(ctx: &Ctx) -> Report {
     let mut rep = Report::new(
         "fault_enumeration",
-        "exhaustive: all (lower<=upper) pairs of the 53-point boundary set {MIN, MAX, 0, +-1, +-2^k, +-2^k+-1 (k in 7,8,15,16,31,32,63,64)} x {marker, none}, each in 9 contexts (type assignment, component, component with DEFAULT, component of referenced type, constrained reference as component and as assignment, SEQUENCE OF element, CHOICE alternative, value assignments of both endpoints through three typings); plus seeded random 2-operand union/intersection/serial combinations. Non-trivial = compiled and at least one integer type token resolved and judged; distinct by constraint text.",
+        "exhaustive: all (lower<=upper) pairs of the 53-point boundary set {MIN, MAX, 0, +-1, +-2^k, +-2^k+-1 (k in 7,8,15,16,31,32,63,64)} x {marker, none}, each in 9 contexts (type assignment, component, component with DEFAULT, component of referenced type, constrained reference as component and as assignment, SEQUENCE OF element, CHOICE alternative, value assignments of both endpoints through three typings); plus seeded random 2-operand union/intersection/serial combinations; plus every pair as the two value parameters of a parameterized SEQUENCE instantiated with literals, with a reference to a module-level value, and with a reference to a module-level value spelled like the first dummy reference. Non-trivial = compiled and at least one integer type token resolved and judged; distinct by constraint text.",
     );
-    rep.must_observe = vec!["int_type_tokens_checked".into(), "literals_checked".into()];
+    rep.must_observe = vec!["int_type_tokens_checked".into(), "literals_checked".into(), "int_type_tokens_checked[parameterized]".into()];
     rep.assumptions = vec!["interval model in iv.rs (unit-tested by brute force)".into(), "type tokens resolved through delegate newtypes of the same module".into()];
     let pts = boundary_points();
     let mut cases = vec![];
@@ -419,7 +470,14 @@ pub fn run(ctx: &Ctx) -> Report {
             cases.push(c);
         }
     }
+    let pairs: Vec<(i128, i128)> = pts.iter().flat_map(|l| pts.iter().filter(move |h| l <= *h).map(move |h| (*l, *h))).collect();
+    rep.extra.insert("parameterized_instances".into(), json!(pairs.len() * 3));
     let acc = Acc::new(rep);
+    par_for(pairs.len() as u64, |i| {
+        let mut local = Report::default();
+        parameterized_bounds(pairs[i as usize].0, pairs[i as usize].1, &mut local);
+        acc.with(|r| r.merge(local));
+    });
     let chunks: Vec<&[IntCase]> = cases.chunks(24).collect();
     par_for(chunks.len() as u64, |i| {
         let mut local = Report::default();
